@@ -91,6 +91,9 @@ type RWMutex struct {
 
 func (m *RWMutex) LockName() string { return fmt.Sprintf("rwmutex %p", m) }
 
+// Queues: a writer that finds the lock taken queues, and readers arriving later wait behind it.
+func (m *RWMutex) Queues() bool { return true }
+
 func (m *RWMutex) CanLock(int64) bool {
 	return m.writer.Load() == 0 && m.readers.Load() == 0
 }
